@@ -192,6 +192,16 @@ def run(ctx):
         if not ok:
             ctx.violation("follows_configured_spectrum", {"history": seq[: si + 1], "hist": True}, spc, le.tolist())
             break
+    import itertools as _it
+
+    nlive = 0
+    for d in ((1, 2) if ctx.tier == "quick" else (1, 2, 3)):
+        for sq in _it.product(range(len(SPEC_STEPS)), repeat=d):
+            nlive += 1
+            ctx.tick(5 * (d + 1), ("live_history",) + tuple(sq))
+            for c, e, o in judge_live_history(sq):
+                ctx.violation(c, {"live": list(sq)}, e, o)
+    ctx.cov["live_configuration_histories"] = nlive
     # monotone in t along the alphabet (inverse CDF is non-decreasing)
     tsort = np.sort(ts)
     for p in idx:
@@ -203,7 +213,61 @@ def run(ctx):
             ctx.violation("monotone_in_u", {"spec": spec, "N": 2, "t": [float(tsort[i]), float(tsort[i + 1])], "pair": True}, "non-decreasing", [float(logE[i]), float(logE[i + 1])])
 
 
+SPEC_STEPS = [
+    ("replace", {"type": "mono", "logE": 9.3}),
+    ("replace", {"type": "power", "index": 2.0, "lo": 10.0, "hi": 12.0}),
+    ("replace", {"type": "power", "index": 1.0, "lo": 6.0, "hi": 7.0}),
+    ("set", "index", 1.0),
+    ("set", "index", 3.5),
+    ("set", "lo", 7.5),
+    ("set", "hi", 9.0),
+    ("set", "logE", 11.0),
+]
+
+
+def judge_live_history(seq):
+    """ONE Spectra object on one live configuration; between calls the spectrum is replaced or one of ITS fields is set
+    in place; every call must return exactly what a fresh sampler on a fresh configuration with the values in force
+    returns (energies, normalisation, weight sum), for the same owned uniform numbers"""
+    from nuspacesim.simulation.spectra.spectra import Spectra
+
+    cur = {"type": "power", "index": 2.2, "lo": 6.5, "hi": 11.5}
+    cfg = make_config(cur)
+    sp = Spectra(cfg)
+    tt = np.array([0.0, 0.25, 0.5, 0.75, 1.0])
+
+    def obs(s):
+        with RngStub(feeds=[tt.copy()]).installed():
+            le, nrm, ws = s(len(tt))
+        return np.asarray(le, dtype=float).tobytes(), float(nrm), float(ws)
+
+    for step in range(len(seq) + 1):
+        if step:
+            op = SPEC_STEPS[seq[step - 1]]
+            if op[0] == "replace":
+                cur = dict(op[1])
+                cfg.simulation.spectrum = make_config(cur).simulation.spectrum
+            else:
+                _, k, v = op
+                if (k == "logE") != (cur["type"] == "mono"):
+                    continue  # the field does not exist on the spectrum in force: not a step of this history
+                if k in ("lo", "hi") and not ({**cur, k: v}["lo"] < {**cur, k: v}["hi"]):
+                    continue
+                cur[k] = v
+                setattr(cfg.simulation.spectrum, {"index": "index", "lo": "lower_bound", "hi": "upper_bound", "logE": "log_nu_energy"}[k], v)
+        try:
+            got = obs(sp)
+        except Exception as ex:
+            return [("live_history_no_exception", f"after {[SPEC_STEPS[i][1:] for i in seq[:step]]}", f"{type(ex).__name__}: {str(ex)[:80]}")]
+        want = obs(Spectra(make_config(cur)))
+        if got != want:
+            return [("follows_configured_spectrum", f"after {[SPEC_STEPS[i][1:] for i in seq[:step]]}: the result of a fresh sampler for {cur}", "differs" if got[0] != want[0] else f"norm/weights {got[1:]} vs {want[1:]}")]
+    return []
+
+
 def replay(case):
+    if case.get("live"):
+        return judge_live_history(tuple(case["live"]))
     if case.get("hist"):
         from nuspacesim.simulation.spectra.spectra import Spectra
 
